@@ -1295,6 +1295,15 @@ func (g *Gen) instr(fr *Frame, st *State, ins ssa.Instruction) {
 		g.sendAnchors(fr, st, x.Chan, g.val(fr, st, x.X), x.X.Type())
 	case *ssa.Go:
 		g.note("goroutine spawn ignored: " + x.Call.String())
+		// a spawn of a named function still fires the call anchors (`set ... at call f`, `assert at call f`):
+		// contracts can count / constrain what is started although the body runs elsewhere
+		if callee := x.Call.StaticCallee(); callee != nil && callee.Parent() == nil && !x.Call.IsInvoke() {
+			var args []Val
+			for _, a := range x.Call.Args {
+				args = append(args, g.val(fr, st, a))
+			}
+			g.callAnchors(fr, st, callee.Name(), callee, args)
+		}
 	case *ssa.Defer:
 		known := false
 		for _, d := range fr.defers {
@@ -1918,6 +1927,11 @@ func (g *Gen) setMayFireIn(fr *Frame, li *loopInfo, s *AnchorSet) bool {
 			case *ssa.MakeClosure:
 				// a closure created in the loop may be run by whatever it is passed to
 				return true
+			case *ssa.Go:
+				// a spawn of a named function fires the call anchors of that name
+				if callee := x.Call.StaticCallee(); callee != nil && callee.Parent() == nil && s.Call != "" && callee.Name() == s.Call {
+					return true
+				}
 			case *ssa.Call:
 				c := x.Common()
 				if c.IsInvoke() {
